@@ -1,5 +1,8 @@
 # Job table for ./check (exec'd by the driver). J(run, quick_checks, thorough_checks, shards=…, race=…)
 PROPS = {
+    "C01": [J("^TestC01Ledger$", 700, 6000, shards=8), J("^TestC01Concurrent$", 60, 400, shards=6, race=True)],
+    "C02": [J("^TestC02PoolHistories$", 600, 5000, shards=6), J("^TestC02Manager$", 4000, 60000, shards=6), J("^TestC02Slicing$", 300, 2500, shards=4)],
+    "C03": [J("^TestC03MinBalance$", 900, 8000, shards=8)],
     "C12": [J("^TestC12Lockstep$", 2500, 12000, shards=8), J("^TestC12LockstepOnDisk$", 1, 1200, shards=6, tier="thorough")],
     "C19": [J("^TestC19", 3000, 40000, shards=8)],
 }
